@@ -1,280 +1,227 @@
-import VarmqVerif.Model.PQ
-import VarmqVerif.Spec.SortedQueue
-import VarmqVerif.Proofs.Heap
-import VarmqVerif.Proofs.SortedQueue
+import VarmqVerif.Proofs.PQRefine
 
 /-!
-# The Go priority queue refines the stable sorted list
+# Priority queue: corollaries in plain words, non-vacuity examples, axiom audit
 
-`PQ.step` (transcription of priority.go on top of the transcribed `container/heap`) is related to
-`SortedQueue.step` by the abstraction function `abs` (sort the heap array by `less`).  All statements
-are for arbitrary `α`, arbitrary `Int` priorities and operation sequences of any length.
-
-Scope note: `Index` / `insertionCount` are Go `int`s; the model uses `Nat`.  After 2^63 accepted
-enqueues on one queue the Go counter wraps to a negative number and the tie-break order of `Less`
-would no longer be acceptance order.  That is outside this model (and outside any feasible run).
+The refinement itself (`Inv`, `abs`, `step_refines`, `refines_sorted`) is in `Proofs/PQRefine.lean`;
+the heap facts in `Proofs/Heap.lean`; the facts about the specification in `Proofs/SortedQueue.lean`.
 -/
 
 namespace VarmqVerif
 namespace PQ
-
 open Heap SortedQueue
 variable {α : Type}
 
-/-! ## Equations of `PQ.step` -/
+theorem abs_sinv (s : State α) (h : Inv s) : SInv (abs s) :=
+  ⟨sort_sorted _ h.nodup, fun it hit => h.bound it (mem_sort.mp hit)⟩
 
-theorem step_enq_closed (s : State α) (x : α) (p : Int) (h : s.closed = true) :
-    step s (.enq x p) = (s, .bool false) := by
-  simp [step, h]
+/-- The same statement directly on the Go model: the value returned by `Dequeue` belongs to a stored
+item that is strictly before (smaller priority, or equal priority and accepted earlier than) every
+item that stays in the heap, and exactly that item is removed. -/
+theorem deq_min_then_fifo_model (s s' : State α) (v : α) (h : Inv s)
+    (hstep : step s .deq = (s', .item (some v))) :
+    ∃ it : Item α, it.val = v ∧ s.items.toList.Perm (it :: s'.items.toList) ∧
+      ∀ z ∈ s'.items.toList, it.prio < z.prio ∨ (it.prio = z.prio ∧ it.idx < z.idx) := by
+  have hs := step_refines_state s .deq h
+  have ho := step_refines_out_exact s .deq h (by simp)
+  rw [hstep] at hs ho
+  obtain ⟨it, hv, hitems, hlt, _⟩ :=
+    SortedQueue.deq_is_min_then_fifo (abs s) (abs s') v (abs_sinv s h)
+      (Prod.ext hs ho.symm)
+  refine ⟨it, hv, ?_, fun z hz => hlt z (mem_sort.mpr hz)⟩
+  have h1 : (sort s.items.toList).Perm (it :: sort s'.items.toList) := by
+    have : sort s.items.toList = it :: sort s'.items.toList := hitems
+    rw [this]
+  exact (sort_perm _).symm.trans (h1.trans ((sort_perm _).cons it))
 
-theorem step_enq_open (s : State α) (x : α) (p : Int) (h : s.closed = false) :
-    step s (.enq x p) =
-      ({ s with insertionCount := s.insertionCount + 1,
-                items := heapPush s.items ⟨x, p, s.insertionCount⟩ }, .bool true) := by
-  simp [step, h]
+/-! ## The insertion counter -/
 
-theorem step_deq_empty (s : State α) (h : s.items.size = 0) :
-    step s .deq = (s, .item none) := by
-  simp [step, h]
-
-theorem step_deq_nonempty (s : State α) (h : 0 < s.items.size) :
-    step s .deq =
-      ({ s with items := (heapPop s.items h).2 }, .item (some (heapPop s.items h).1.val)) := by
-  have : ¬ s.items.size = 0 := by omega
-  simp [step, this]
-/-! ## Invariant -/
-
-/-- Representation invariant of `PriorityQueue`: the slice is a heap, every stored insertion index is
-below the counter, and the stored insertion indices are pairwise distinct. -/
-structure Inv (s : State α) : Prop where
-  heap   : IsHeap s.items
-  bound  : ∀ it ∈ s.items.toList, it.idx < s.insertionCount
-  nodup  : IdxNodup s.items.toList
-
-theorem inv_init : Inv (init : State α) := by
-  refine ⟨?_, ?_, ?_⟩ <;> simp [init, heapInit_empty, isHeap_empty, IdxNodup]
-
-theorem step_inv (s : State α) (op : Op α) (h : Inv s) : Inv (step s op).1 := by
+/-- No operation ever decreases `insertionCount` — in particular `Purge` does **not** reset it
+(priority.go `Purge` only replaces `internal.items`). -/
+theorem insertionCount_mono (s : State α) (op : Op α) :
+    s.insertionCount ≤ (step s op).1.insertionCount := by
   cases op with
-  | enq x prio =>
+  | enq x p =>
     by_cases hc : s.closed = true
-    · rw [step_enq_closed _ _ _ hc]; exact h
-    · rw [step_enq_open _ _ _ (by simpa using hc)]
-      have hp := heapPush_perm s.items ⟨x, prio, s.insertionCount⟩
-      refine ⟨heapPush_isHeap _ _ h.heap, ?_, ?_⟩
-      · intro it hit
-        rcases List.mem_cons.mp (hp.mem_iff.mp hit) with rfl | hit
-        · exact Nat.lt_succ_self _
-        · exact Nat.lt_succ_of_lt (h.bound it hit)
-      · refine IdxNodup.perm ?_ hp.symm
-        unfold IdxNodup
-        rw [List.map_cons, List.nodup_cons]
-        refine ⟨?_, h.nodup⟩
-        intro hmem
-        obtain ⟨it, hit, heq⟩ := List.mem_map.mp hmem
-        have := h.bound it hit
-        simp at heq; omega
+    · rw [step_enq_closed _ _ _ hc]; exact Nat.le_refl _
+    · rw [step_enq_open _ _ _ (by simpa using hc)]; exact Nat.le_succ _
   | deq =>
     by_cases he : s.items.size = 0
-    · rw [step_deq_empty _ he]; exact h
-    · have hpos : 0 < s.items.size := by omega
-      rw [step_deq_nonempty _ hpos]
-      have hp := heapPop_perm s.items hpos
-      refine ⟨heapPop_isHeap _ h.heap hpos, ?_, ?_⟩
-      · intro it hit
-        exact h.bound it (hp.mem_iff.mpr (List.mem_cons_of_mem _ hit))
-      · have := h.nodup.perm hp
-        unfold IdxNodup at this ⊢
-        rw [List.map_cons, List.nodup_cons] at this
-        exact this.2
-  | len => exact h
-  | values => exact h
-  | purge =>
-    refine ⟨?_, ?_, ?_⟩ <;> simp [step, heapInit_empty, isHeap_empty, IdxNodup]
-  | close => exact ⟨h.heap, h.bound, h.nodup⟩
+    · rw [step_deq_empty _ he]; exact Nat.le_refl _
+    · rw [step_deq_nonempty _ (by omega)]; exact Nat.le_refl _
+  | len => exact Nat.le_refl _
+  | values => exact Nat.le_refl _
+  | purge => exact Nat.le_refl _
+  | close => exact Nat.le_refl _
 
-theorem run_inv (s : State α) (ops : List (Op α)) (h : Inv s) : Inv (run s ops).1 := by
+theorem run_insertionCount_mono (s : State α) (ops : List (Op α)) :
+    s.insertionCount ≤ (run s ops).1.insertionCount := by
   induction ops generalizing s with
-  | nil => exact h
-  | cons op ops ih => exact ih _ (step_inv s op h)
+  | nil => exact Nat.le_refl _
+  | cons op ops ih => exact Nat.le_trans (insertionCount_mono s op) (ih _)
 
-/-! ## Abstraction and refinement -/
+/-- Every accepted `Enqueue` stores exactly one new item, stamped with the current counter value,
+which is larger than the index of every pending item, and increments the counter.  Together with
+`insertionCount_mono` (also across `Purge`): insertion indices are handed out in strictly increasing
+acceptance order over the whole life of the queue, so "smallest index" in
+`deq_is_min_then_fifo` means "accepted first", also after purge-and-reuse. -/
+theorem index_fresh (s : State α) (x : α) (p : Int) (h : Inv s) (hc : s.closed = false) :
+    (step s (.enq x p)).2 = .bool true ∧
+    (step s (.enq x p)).1.insertionCount = s.insertionCount + 1 ∧
+    (step s (.enq x p)).1.items.toList.Perm (⟨x, p, s.insertionCount⟩ :: s.items.toList) ∧
+    ∀ it ∈ s.items.toList, it.idx < s.insertionCount := by
+  rw [step_enq_open _ _ _ hc]
+  exact ⟨rfl, rfl, heapPush_perm _ _, h.bound⟩
 
-/-- Abstraction function: the pending items in dequeue order. -/
-def abs (s : State α) : SortedQueue.State α :=
-  { items := sort s.items.toList, insertionCount := s.insertionCount, closed := s.closed }
+/-- `Enqueue` is rejected exactly on a closed queue, and then nothing changes. -/
+theorem enq_rejected_iff (s : State α) (x : α) (p : Int) :
+    (step s (.enq x p)).2 = .bool false ↔ s.closed = true := by
+  by_cases hc : s.closed = true
+  · simp [step_enq_closed _ _ _ hc, hc]
+  · simp [step_enq_open _ _ _ (by simpa using hc), hc]
 
-/-- Output equivalence: equal, except that two `Values()` results only have to be permutations of
-each other (the Go code returns the values in heap-array order, the specification in dequeue order). -/
-def OutEq : Out α → Out α → Prop
-  | .list l₁, .list l₂ => l₁.Perm l₂
-  | o₁, o₂ => o₁ = o₂
+theorem enq_rejected_unchanged (s : State α) (x : α) (p : Int) (hc : s.closed = true) :
+    (step s (.enq x p)).1 = s := by
+  rw [step_enq_closed _ _ _ hc]
 
-/-- `OutEq` lifted to output sequences: same length, pointwise `OutEq`. -/
-def OutsEq : List (Out α) → List (Out α) → Prop
-  | [], [] => True
-  | a :: as, b :: bs => OutEq a b ∧ OutsEq as bs
-  | _, _ => False
+/-- A pending item with the same priority as a newly accepted one is strictly before it. -/
+theorem fifo_ties (s : State α) (x : α) (p : Int) (h : Inv s) (y : Item α)
+    (hy : y ∈ s.items.toList) (hp : y.prio = p) :
+    less y ⟨x, p, s.insertionCount⟩ = true := by
+  rw [less_iff]; right; exact ⟨hp, h.bound y hy⟩
 
-theorem OutEq.refl (o : Out α) : OutEq o o := by
-  cases o <;> simp [OutEq]
+/-- What the Go code does in `Purge`: empty slice, counter and `closed` kept. -/
+theorem step_purge (s : State α) :
+    step s .purge = ({ s with items := #[] }, .unit) := by
+  simp [step, heapInit_empty]
 
-theorem abs_init : abs (init : State α) = SortedQueue.init := by
-  simp [abs, init, SortedQueue.init, heapInit_empty, sort]
+/-- Remark (counterfactual): on an *empty* heap the invariant holds for every counter value, so a
+`Purge` that reset `insertionCount` to 0 would be just as correct — FIFO order among ties only needs
+the counter to exceed the indices of the *pending* items.  The Go code does not reset it. -/
+theorem inv_empty_any_count (c : Nat) (b : Bool) :
+    Inv ({ items := #[], insertionCount := c, closed := b } : State α) :=
+  ⟨isHeap_empty, by simp, by simp [IdxNodup]⟩
 
-/-- Key fact for `Dequeue`: the sorted view of a non-empty heap is the item `heap.Pop` returns followed
-by the sorted view of the heap it leaves behind. -/
-theorem abs_items_of_nonempty (s : State α) (h : Inv s) (hpos : 0 < s.items.size) :
-    (abs s).items = (heapPop s.items hpos).1 :: sort (heapPop s.items hpos).2.toList := by
-  have hp := heapPop_perm s.items hpos
-  show sort s.items.toList = _
-  rw [sort_eq_of_perm h.nodup hp]
-  apply sort_cons_min _ _ (h.nodup.perm hp)
-  intro x hx
-  apply heapPop_min s.items h.heap hpos
-  exact Array.mem_def.mpr (hp.mem_iff.mpr (List.mem_cons_of_mem _ hx))
+/-- **FIFO among equal priorities, on the Go model**, from any reachable open state with an empty heap
+(a fresh queue, or one that was drained or purged — the counter value is irrelevant): enqueueing `xs`
+with the same priority and then dequeueing `|xs|` times yields `xs` in acceptance order. -/
+theorem fifo_same_priority (s : State α) (h : Inv s) (hc : s.closed = false)
+    (he : s.items = #[]) (p : Int) (xs : List α) :
+    (run s (xs.map (fun x => Op.enq x p) ++ List.replicate xs.length Op.deq)).2 =
+      xs.map (fun _ => Out.bool true) ++ xs.map (fun x => Out.item (some x)) := by
+  rw [run_refines_exact s _ h]
+  · exact SortedQueue.fifo_same_priority (abs s) hc (by simp [abs, he, sort]) p xs
+  · intro op hop
+    simp only [List.mem_append, List.mem_map, List.mem_replicate] at hop
+    rcases hop with ⟨x, _, rfl⟩ | ⟨_, rfl⟩ <;> simp
 
-/-- Simulation step, state part: the specification, started in the abstraction of the model state,
-ends in the abstraction of the model's next state. -/
-theorem step_refines_state (s : State α) (op : Op α) (h : Inv s) :
-    (SortedQueue.step (abs s) op).1 = abs (step s op).1 := by
-  cases op with
-  | enq x prio =>
-    by_cases hc : s.closed = true
-    · rw [step_enq_closed _ _ _ hc, SortedQueue.step_enq_closed _ _ _ hc]
-    · have hc' : s.closed = false := by simpa using hc
-      have hn : IdxNodup (heapPush s.items ⟨x, prio, s.insertionCount⟩).toList := by
-        have := (step_inv s (.enq x prio) h).nodup
-        rwa [step_enq_open _ _ _ hc'] at this
-      rw [step_enq_open _ _ _ hc', SortedQueue.step_enq_open _ _ _ hc']
-      simp only [abs]
-      rw [sort_eq_of_perm hn (heapPush_perm _ _)]
-      rfl
-  | deq =>
-    by_cases he : s.items.size = 0
-    · have hnil : (abs s).items = [] := by
-        have : s.items = #[] := Array.eq_empty_of_size_eq_zero he
-        simp [abs, this, sort]
-      rw [step_deq_empty _ he, SortedQueue.step_deq_nil _ hnil]
-    · have hpos : 0 < s.items.size := by omega
-      rw [step_deq_nonempty _ hpos, SortedQueue.step_deq_cons _ _ _ (abs_items_of_nonempty s h hpos)]
-      rfl
-  | len => rfl
-  | values => rfl
-  | purge => simp [step, SortedQueue.step, abs, heapInit_empty, sort]
-  | close => rfl
+/-! ## Non-vacuity examples
 
-/-- Simulation step, output part.  For every operation except `Values` the outputs are *equal*. -/
-theorem step_refines_out_exact (s : State α) (op : Op α) (h : Inv s) (hop : op ≠ .values) :
-    (step s op).2 = (SortedQueue.step (abs s) op).2 := by
-  cases op with
-  | enq x prio =>
-    by_cases hc : s.closed = true
-    · rw [step_enq_closed _ _ _ hc, SortedQueue.step_enq_closed _ _ _ hc]
-    · have hc' : s.closed = false := by simpa using hc
-      rw [step_enq_open _ _ _ hc', SortedQueue.step_enq_open _ _ _ hc']
-  | deq =>
-    by_cases he : s.items.size = 0
-    · have hnil : (abs s).items = [] := by
-        have : s.items = #[] := Array.eq_empty_of_size_eq_zero he
-        simp [abs, this, sort]
-      rw [step_deq_empty _ he, SortedQueue.step_deq_nil _ hnil]
-    · have hpos : 0 < s.items.size := by omega
-      rw [step_deq_nonempty _ hpos, SortedQueue.step_deq_cons _ _ _ (abs_items_of_nonempty s h hpos)]
-  | len => simp [step, SortedQueue.step, abs, length_sort]
-  | values => exact absurd rfl hop
-  | purge => rfl
-  | close => rfl
+Concrete runs are evaluated by the kernel (`decide +kernel`; no `native_decide`, no extra axiom). -/
 
-/-- Simulation step, `Values`: the model returns the values in heap-array order, the specification
-the same values in dequeue order; the former is a permutation of the latter. -/
-theorem step_refines_values (s : State α) :
-    (step s .values).2 = .list (s.items.toList.map (·.val)) ∧
-    (SortedQueue.step (abs s) .values).2 = .list ((sort s.items.toList).map (·.val)) ∧
-    (s.items.toList.map (·.val)).Perm ((sort s.items.toList).map (·.val)) :=
-  ⟨rfl, rfl, ((sort_perm _).map _).symm⟩
+section Examples
 
-/-- Simulation step, combined. -/
-theorem step_refines (s : State α) (op : Op α) (h : Inv s) :
-    (SortedQueue.step (abs s) op).1 = abs (step s op).1 ∧
-    OutEq (step s op).2 (SortedQueue.step (abs s) op).2 := by
-  refine ⟨step_refines_state s op h, ?_⟩
-  by_cases hop : op = .values
-  · subst hop
-    exact (step_refines_values s).2.2
-  · rw [step_refines_out_exact s op h hop]; exact OutEq.refl _
+/-- Negative, equal and extreme (`minInt64`, `maxInt64`) priorities, interleaved dequeues, `Values`
+in heap order, `Purge` and reuse, `Close`, rejected `Enqueue`, draining a closed queue. -/
+def demoOps : List (Op String) :=
+  [.enq "a" 5, .enq "b" (-3), .enq "c" 5, .enq "d" 9223372036854775807,
+   .enq "e" (-9223372036854775808), .enq "f" (-3), .len, .values, .deq, .deq,
+   .enq "g" (-3), .deq, .deq, .values, .purge, .deq, .len, .enq "h" 0, .enq "i" 0, .enq "j" (-1),
+   .deq, .deq, .close, .enq "k" 0, .deq, .deq, .len]
 
-/-! ## Refinement for unbounded operation sequences -/
+/-- What the Go model returns. -/
+example : (run init demoOps).2 =
+  [.bool true, .bool true, .bool true, .bool true, .bool true, .bool true, .nat 6,
+   .list ["e", "b", "f", "d", "a", "c"],                    -- heap order: "d" (maxInt64) before "a"
+   .item (some "e"), .item (some "b"), .bool true,
+   .item (some "f"),                                         -- (-3, idx 5) before "g" = (-3, idx 6)
+   .item (some "g"), .list ["a", "d", "c"], .unit, .item none, .nat 0,
+   .bool true, .bool true, .bool true, .item (some "j"),
+   .item (some "h"),                                         -- tie at priority 0 after Purge: FIFO
+   .unit, .bool false, .item (some "i"), .item none, .nat 0] := by decide +kernel
 
-theorem OutsEq.refl (l : List (Out α)) : OutsEq l l := by
-  induction l with
-  | nil => trivial
-  | cons o os ih => exact ⟨OutEq.refl o, ih⟩
+/-- What the specification returns: the same except for the order inside the two `Values` results. -/
+example : (SortedQueue.run SortedQueue.init demoOps).2 =
+  [.bool true, .bool true, .bool true, .bool true, .bool true, .bool true, .nat 6,
+   .list ["e", "b", "f", "a", "c", "d"],
+   .item (some "e"), .item (some "b"), .bool true, .item (some "f"),
+   .item (some "g"), .list ["a", "c", "d"], .unit, .item none, .nat 0,
+   .bool true, .bool true, .bool true, .item (some "j"), .item (some "h"),
+   .unit, .bool false, .item (some "i"), .item none, .nat 0] := by decide
 
-/-- Pointwise reading of `OutsEq`. -/
-theorem outsEq_iff (l₁ l₂ : List (Out α)) :
-    OutsEq l₁ l₂ ↔ l₁.length = l₂.length ∧
-      ∀ i (h₁ : i < l₁.length) (h₂ : i < l₂.length), OutEq l₁[i] l₂[i] := by
-  induction l₁ generalizing l₂ with
-  | nil => cases l₂ <;> simp [OutsEq]
-  | cons a as ih =>
-    cases l₂ with
-    | nil => simp [OutsEq]
-    | cons b bs =>
-      simp only [OutsEq, ih, List.length_cons, Nat.add_right_cancel_iff]
-      constructor
-      · rintro ⟨hab, hl, hi⟩
-        refine ⟨hl, ?_⟩
-        intro i h₁ h₂
-        cases i with
-        | zero => exact hab
-        | succ i => exact hi i (by omega) (by omega)
-      · rintro ⟨hl, hi⟩
-        exact ⟨hi 0 (by omega) (by omega), hl,
-          fun i h₁ h₂ => hi (i + 1) (by omega) (by omega)⟩
+/-- So plain equality of the output sequences is false here, `OutsEq` is the right statement … -/
+example : (run init demoOps).2 ≠ (SortedQueue.run SortedQueue.init demoOps).2 := by decide +kernel
+/-- … and it holds (instance of the headline theorem). -/
+example : OutsEq (run init demoOps).2 (SortedQueue.run SortedQueue.init demoOps).2 :=
+  refines_sorted demoOps
 
-/-- Simulation from any state satisfying the invariant. -/
-theorem run_refines (s : State α) (ops : List (Op α)) (h : Inv s) :
-    (SortedQueue.run (abs s) ops).1 = abs (run s ops).1 ∧
-    OutsEq (run s ops).2 (SortedQueue.run (abs s) ops).2 := by
-  induction ops generalizing s with
-  | nil => exact ⟨rfl, trivial⟩
-  | cons op ops ih =>
-    have hs := step_refines s op h
-    have := ih (step s op).1 (step_inv s op h)
-    simp only [run, SortedQueue.run, hs.1]
-    exact ⟨this.1, hs.2, this.2⟩
+/-- White-box view after the first eight calls: a heap that is not sorted. -/
+example : shape (run init (demoOps.take 8)).1 =
+    [(-9223372036854775808, 4), (-3, 1), (-3, 5), (9223372036854775807, 3), (5, 0), (5, 2)] := by
+  decide +kernel
 
-/-- **Headline.**  For every sequence of calls on a fresh `PriorityQueue`, the Go implementation
-(binary heap via `container/heap`) returns the same outputs as the stable sorted list, where the two
-results of a `Values()` call are compared as multisets (`OutEq`). -/
-theorem refines_sorted (ops : List (Op α)) :
-    OutsEq (run init ops).2 (SortedQueue.run SortedQueue.init ops).2 := by
-  have := (run_refines init ops inv_init).2
-  rwa [abs_init] at this
+/-- The counter survives `Purge` (10 accepted enqueues in `demoOps`, one rejected). -/
+example : (run init demoOps).1 = { items := #[], insertionCount := 10, closed := true } := by
+  decide +kernel
 
-/-- The final abstract states agree as well. -/
-theorem refines_sorted_state (ops : List (Op α)) :
-    abs (run init ops).1 = (SortedQueue.run SortedQueue.init ops).1 := by
-  have := (run_refines init ops inv_init).1
-  rw [abs_init] at this; exact this.symm
+/-- `Inv` holds in non-trivial reachable states (hypothesis of `step_inv`, `step_refines`, …). -/
+example : Inv (run init (demoOps.take 8)).1 := run_inv _ _ inv_init
+example : (run init (demoOps.take 8)).1.items.size = 6 := by decide +kernel
 
-theorem run_refines_exact (s : State α) (ops : List (Op α)) (h : Inv s)
-    (hv : ∀ op ∈ ops, op ≠ .values) :
-    (run s ops).2 = (SortedQueue.run (abs s) ops).2 := by
-  induction ops generalizing s with
-  | nil => rfl
-  | cons op ops ih =>
-    have ho := step_refines_out_exact s op h (hv op List.mem_cons_self)
-    have hst := step_refines_state s op h
-    have := ih (step s op).1 (step_inv s op h) (fun o ho => hv o (List.mem_cons_of_mem _ ho))
-    simp only [run, SortedQueue.run, hst, ho, this]
+/-- `Inv` is not trivially true: a duplicated insertion index, an index above the counter, or a
+broken heap order violate it. -/
+example : ¬ Inv ({ items := #[⟨"a", 0, 0⟩, ⟨"b", 1, 0⟩], insertionCount := 2, closed := false } : State String) :=
+  fun h => absurd h.nodup (by unfold IdxNodup; decide)
+example : ¬ Inv ({ items := #[⟨"a", 0, 5⟩], insertionCount := 2, closed := false } : State String) :=
+  fun h => absurd (h.bound ⟨"a", 0, 5⟩ (by simp)) (by decide)
+example : ¬ Inv ({ items := #[⟨"a", 1, 0⟩, ⟨"b", 0, 1⟩], insertionCount := 2, closed := false } : State String) :=
+  fun h => absurd h.heap (by decide)
 
-/-- **Headline, exact form.**  Without `Values()` calls the output sequences are equal. -/
-theorem refines_sorted_exact (ops : List (Op α)) (hv : ∀ op ∈ ops, op ≠ .values) :
-    (run init ops).2 = (SortedQueue.run SortedQueue.init ops).2 := by
-  have := run_refines_exact init ops inv_init hv
-  rwa [abs_init] at this
+/-- `refines_sorted_exact`: a `Values`-free sequence, outputs literally equal. -/
+example : (run init (demoOps.filter (· ≠ .values))).2 =
+    (SortedQueue.run SortedQueue.init (demoOps.filter (· ≠ .values))).2 :=
+  refines_sorted_exact _ (by decide)
+
+/-- `deq_is_min_then_fifo`: hypotheses instantiated on the specification state reached by the first
+eight calls (six pending items); the dequeued value is "e" (priority `minInt64`). -/
+example : ∃ it : Item String, it.val = "e" ∧
+    ∀ z ∈ (SortedQueue.run SortedQueue.init (demoOps.take 8)).1.items,
+      it.prio ≤ z.prio ∧ (z.prio = it.prio → it.idx ≤ z.idx) := by
+  obtain ⟨it, hv, _, _, hmin⟩ :=
+    SortedQueue.deq_is_min_then_fifo (SortedQueue.run SortedQueue.init (demoOps.take 8)).1 _ "e"
+      (SortedQueue.run_sinv _ _ SortedQueue.sinv_init) (Prod.ext rfl (by decide))
+  exact ⟨it, hv, hmin⟩
+
+/-- `fifo_same_priority` on a fresh queue and on a purged one (counter at 3). -/
+example : (run (init : State String)
+      ([.enq "x" 7, .enq "y" 7, .enq "z" 7] ++ [.deq, .deq, .deq])).2 =
+    [.bool true, .bool true, .bool true, .item (some "x"), .item (some "y"), .item (some "z")] :=
+  fifo_same_priority init inv_init rfl (by simp [init, heapInit_empty]) 7 ["x", "y", "z"]
+example : (run (run (init : State String) [.enq "p" 1, .enq "q" 0, .enq "r" 2, .purge]).1
+      ([.enq "x" (-7), .enq "y" (-7)] ++ [.deq, .deq])).2 =
+    [.bool true, .bool true, .item (some "x"), .item (some "y")] :=
+  fifo_same_priority _ (run_inv _ _ inv_init) (by decide +kernel) (by decide +kernel) (-7) ["x", "y"]
+
+end Examples
+
+/-! ## Axiom audit (allowed: `propext`, `Classical.choice`, `Quot.sound`) -/
+
+#print axioms inv_init
+#print axioms step_inv
+#print axioms step_refines
+#print axioms step_refines_out_exact
+#print axioms step_refines_values
+#print axioms run_refines
+#print axioms refines_sorted
+#print axioms refines_sorted_exact
+#print axioms refines_sorted_state
+#print axioms SortedQueue.deq_is_min_then_fifo
+#print axioms deq_min_then_fifo_model
+#print axioms insertionCount_mono
+#print axioms index_fresh
+#print axioms fifo_ties
+#print axioms fifo_same_priority
+#print axioms inv_empty_any_count
 
 end PQ
 end VarmqVerif
